@@ -22,7 +22,7 @@ RULE = ('family = one shuffled dataset object (one-time shuffle, per-epoch reshu
         'part of it; local shuffle never emits an example more than buffer_size-1 '
         'positions early. Non-trivial = at least two iterators overlapped or an '
         'adversary step fired; distinct = distinct (dataset, op list).')
-PROBES = ['dataset_derived_while_iterator_in_flight', 'iterators_over_freezing_consumer',
+PROBES = ['oversized_sample_without_replacement_refused', 'dataset_derived_while_iterator_in_flight', 'iterators_over_freezing_consumer',
           'second_iterator_started_while_first_in_flight', 'three_iterators_in_flight',
           'adversary_reseeded_global_state', 'displacement_bound_reached',
           'rounds_of_an_endless_repetition', 'none_example_shuffled',
@@ -132,6 +132,10 @@ def gen_spec(rng):
             spec['size'] = rng.randrange(2, max(3, n // 8))
         elif n == 0:
             spec['kind'] = 'once'
+        elif rng.random() < 0.15:
+            # more than there is: without replacement that can only be refused
+            spec['size'] = n + rng.randrange(1, 4)
+            spec['oversize'] = True
         else:
             spec['size'] = rng.randrange(1, n + 1)
     if spec['source'] == 'dict' and spec['kind'] != 'tile' and rng.random() < 0.4:
@@ -333,7 +337,17 @@ def _run(case, finish):
     probes = {}
     fired = {}
     try:
-        ds = build(spec)
+        if spec.get('oversize'):
+            try:
+                ds = build(spec)
+            except Exception:
+                np.random.set_state(st)
+                return hist.outcome(case, nontrivial=True, key=hist.hkey(case), violations=[],
+                                    fired={'oversized_sample_requested': 1},
+                                    probes={'oversized_sample_without_replacement_refused': 1},
+                                    stats={}, sample={'case': case}, digest_extra=None)
+        else:
+            ds = build(spec)
         nit = case['iters']
         its = [None] * nit
         copies = {}
